@@ -134,6 +134,20 @@ def check(run):
         for i in range(0, len(ts), 500):
             jobs.append({"k": "total", "tag": "rtokens", "only": [e], "inputs": [list(t.encode()) for t in ts[i:i + 500]]})
     run.extra["range_token_inputs"] = nrt
+    # blank-separated fields: every sequence of three fields (and a seeded sample of four) over the ecosystem's operator
+    # tokens and two versions - operators next to operators, operators at the end, versions without operators
+    import itertools
+    nfs = 0
+    for e in sorted(rt):
+        ops = sorted({t for t in rt[e] if t and len(t) <= 3 and not any(c.isalnum() or c.isspace() for c in t)})[:12]
+        fields = ops + ["1", "1.0.0"]
+        seqs = [" ".join(s) for s in itertools.product(fields, repeat=3)]
+        four = [" ".join(s) for s in itertools.product(fields, repeat=4)]
+        seqs += rnd.sample(four, min(len(four), 300 if quick else 3000))
+        nfs += len(seqs)
+        for i in range(0, len(seqs), 500):
+            jobs.append({"k": "total", "tag": "fields", "only": [e], "inputs": [list(t.encode()) for t in seqs[i:i + 500]]})
+    run.extra["blank_separated_field_inputs"] = nfs
     # CLI: every string of length <= 2 (no NUL: it cannot be passed in an argument vector) in every argument position
     short = [s for s in strs if len(s) <= 2 and 0 not in s] + [g for g in garb[:200] if 0 not in g and len(g) < 2000]
     cliruns = []
